@@ -230,6 +230,28 @@ def sweep(fx, R):
                                    'OLD %s (or from nothing, for a default-constructed object that is configured afterwards)' % (D, S_, pp(i['e'])[:80], setters[0], S_, D, S_), fx.rel(g['loc']), 'E-STATE')
                     elif used:
                         R.holds('H8', inst, 'derived from %s, which no method re-assigns without it' % S_, fx.rel(g['loc']), 'E-STATE')
+    # ---- H11: a member function this property reads that redefines, with the same signature, a NON-virtual member of a public base: through a base reference the base version runs --------
+    for cls in classes:
+        rec = fx.records.get(cls) or {}
+        read_names = {f['name'] for f in fns if f.get('cls') == cls}
+        for bq in rec.get('bases') or []:
+            brec = fx.records.get(bq)
+            if not brec:
+                continue
+            bm = {(m_['name'], m_.get('sig')): m_ for m_ in brec['methods'] if not m_.get('ctor') and not m_['name'].startswith('~')}
+            for m_ in rec.get('methods', []):
+                if m_.get('ctor') or m_['name'].startswith('~') or m_.get('implicit') or m_['name'] not in read_names:
+                    continue
+                b_ = bm.get((m_['name'], m_.get('sig')))
+                if b_ is None:
+                    continue
+                inst = '%s::%s:dispatch' % (cls, m_['name'])
+                if b_.get('virtual'):
+                    R.holds('H11', inst, 'overrides a virtual member of %s' % bq, None, 'E-SIB')
+                else:
+                    R.violated('H11', inst, '%s::%s redefines `%s` of its public base %s, where it is not virtual: the derived version only hides it, so the same object answers differently through a %s reference or '
+                               'pointer (the base version runs, with the base\'s notion of the state) - what this property states about %s does not hold for that access path' % (
+                                   cls, m_['name'], m_.get('sig'), bq, bq.split('<')[0].split('::')[-1], cls.split('::')[-1]), fx.rel(rec['loc']) if rec.get('loc') else None, 'E-SIB')
     # ---- H10: a member filled from an ARGUMENT under a condition that does not look at the argument, and used in its place afterwards ------------------------
     # `if (cache_.size() != n) cache_.assign(n, value);  ... use cache_ ...`: the first call decides the value for good; a later call with another argument silently uses the old one.
     for f in sorted(fns, key=lambda f: f['q']):
